@@ -216,12 +216,12 @@ def run(ctx, replay):
         ctx.cov["tlc_delay_bounded_schedules"] = len(tlc_behs)
         if not tlc_behs:
             raise vlib.Infra("TLC produced no schedules")
-        pick = tlc_behs if thorough else vlib.sample(ctx.rng, tlc_behs, 150)
+        pick = vlib.sample(ctx.rng, tlc_behs, 6000 if thorough else 150)
         nq = 0
         for i, b in enumerate(map(scale, pick)):
             modes = ["wheel"]
             if all(v == 0 for v in b["cfg"]["due"].values()) and (not thorough or i % 5 == 0):
-                modes.append("queue")       # thorough: every schedule on the wheel, every 5th also on the queue
+                modes.append("queue")       # thorough: every picked schedule on the wheel, every 5th also on the queue
             for mode in modes:
                 c = dict(b["cfg"], mode=mode)
                 behs.append({"cfg": c, "pol": "list", "sched": b["sched"], "src": "tlc"})
